@@ -416,6 +416,65 @@ def inline_tail_helpers(fn: ast.AST, methods: Dict[str, ast.AST], all_methods: O
     return view, inlined
 
 
+_MUTATORS = {'append', 'extend', 'insert', 'pop', 'remove', 'clear', 'add', 'discard', 'update', 'setdefault', 'popitem', 'appendleft', 'popleft', 'sort', 'reverse'}
+
+
+def shared_mutable_class_attrs(tree: ast.AST, class_names: Sequence[str]) -> List[Tuple[str, str, ast.AST]]:
+    """(class, attribute, class-level statement) for every attribute that (a) has a class-level default which is a mutable container
+    (list / dict / set display or constructor call), (b) is changed in place through the instance by some method of the class or of its bases
+    in this module, and (c) is not assigned in any __init__ of that chain: all instances then share the one container."""
+    cls_nodes = {c.name: c for c in getattr(tree, 'body', []) if isinstance(c, ast.ClassDef)}
+    out: List[Tuple[str, str, ast.AST]] = []
+
+    def chain_of(c_: ast.ClassDef, seen: Optional[List[ast.ClassDef]] = None) -> List[ast.ClassDef]:
+        seen = seen if seen is not None else []
+        if c_ in seen:
+            return seen
+        seen.append(c_)
+        for b_ in c_.bases:
+            bn = dotted(b_)
+            if bn in cls_nodes:
+                chain_of(cls_nodes[bn], seen)
+        return seen
+    for cname in class_names:
+        cnode = cls_nodes.get(cname)
+        if cnode is None:
+            continue
+        chain = chain_of(cnode)
+        mutated = set()
+        for c_ in chain:
+            for m in c_.body:
+                if not isinstance(m, (ast.FunctionDef, ast.AsyncFunctionDef)):
+                    continue
+                me = m.args.args[0].arg if m.args.args else 'self'
+                for n in ast.walk(m):
+                    if isinstance(n, ast.Call) and isinstance(n.func, ast.Attribute) and n.func.attr in _MUTATORS and isinstance(n.func.value, ast.Attribute) and isinstance(n.func.value.value, ast.Name) \
+                            and n.func.value.value.id == me:
+                        mutated.add(n.func.value.attr)
+                    if isinstance(n, ast.Subscript) and isinstance(n.ctx, (ast.Store, ast.Del)) and isinstance(n.value, ast.Attribute) and isinstance(n.value.value, ast.Name) and n.value.value.id == me:
+                        mutated.add(n.value.attr)
+        init_sets = set()
+        for c_ in chain:
+            for m in c_.body:
+                if isinstance(m, ast.FunctionDef) and m.name in ('__init__', '__new__', '__attrs_post_init__'):
+                    me = m.args.args[0].arg if m.args.args else 'self'
+                    for a in ast.walk(m):
+                        if isinstance(a, (ast.Assign, ast.AnnAssign)):
+                            for t in (a.targets if isinstance(a, ast.Assign) else [a.target]):
+                                for t1 in (t.elts if isinstance(t, (ast.Tuple, ast.List)) else [t]):
+                                    if isinstance(t1, ast.Attribute) and isinstance(t1.value, ast.Name) and t1.value.id == me:
+                                        init_sets.add(t1.attr)
+        for attr in sorted(mutated - init_sets):
+            for c_ in chain:
+                for st in c_.body:
+                    if isinstance(st, (ast.Assign, ast.AnnAssign)) and st.value is not None \
+                            and any(isinstance(t, ast.Name) and t.id == attr for t in (st.targets if isinstance(st, ast.Assign) else [st.target])) \
+                            and (isinstance(st.value, (ast.List, ast.Dict, ast.Set, ast.ListComp, ast.DictComp, ast.SetComp))
+                                 or (isinstance(st.value, ast.Call) and dotted(st.value.func) in ('list', 'dict', 'set', 'deque', 'collections.deque', 'defaultdict', 'collections.defaultdict', 'bytearray'))):
+                        out.append((cname, attr, st))
+    return out
+
+
 def calls_in(node: ast.AST, nested: bool = True) -> Iterator[ast.Call]:
     it = ast.walk(node) if nested else walk_no_nested(node)
     for n in it:
